@@ -120,6 +120,10 @@ class _PostponedAnnotation(UpgradedAnnotation):
     _function: types.FunctionType
 
     def source_value(self):
+        if not isinstance(self._raw_annotation, str):
+            # put into __annotations__ (or a __signature__) at run time:
+            # already a value
+            return self._raw_annotation
         return eval(self._raw_annotation, self._function.__globals__, {})
 
     def _unevaluated(self):
